@@ -189,7 +189,7 @@ class Gen:
             live = self.live()
             if not live:
                 return None
-            return ['exit', rng.choice(live), rng.choice([0, 155, 1, 70, -9, -11, -15, -6, 2])]
+            return ['exit', rng.choice(live), rng.choice([0, 155, 1, 70, -9, -11, -15, -6, 2, -35, -63, -34, 255, 3, -2])]
         if k == 'tick':
             return ['tick']
         if k == 'join_shutdown':
